@@ -11,6 +11,19 @@ From SioV Require Import Base.GoSem Base.Conc Sio.Ack Sio.AckProofs.
 Theorem C03_at_most_once : forall s id, reach s -> length (outcomes s id) <= 1.
 Proof. exact at_most_once. Qed.
 
+(** Callbacks take time (a goroutine at [RRunning]/[TRunning] is inside the user callback, for as long
+    as the schedule likes).  The log records invocation STARTS, so [C03_at_most_once] already counts
+    overlapping invocations; explicitly: while the callback of [id] is executing with a reply - whatever
+    happened meanwhile (timer woke up, duplicates arrived, ...) - it is the only invocation so far, and
+    by [C03_at_most_once] no later state has a second one.  Same for a running timeout callback. *)
+Theorem C03_no_invocation_while_reply_callback_runs : forall s id a,
+  reach s -> In (RRunning id a) (st_replies s) -> outcomes s id = [OReply a].
+Proof. exact running_reply_only. Qed.
+
+Theorem C03_no_invocation_while_timeout_callback_runs : forall s id e,
+  reach s -> get_emit s id = Some e -> e_timer e = TRunning -> outcomes s id = [OTimeout].
+Proof. exact running_timeout_only. Qed.
+
 (** With a timeout: in every state in which no goroutine can move any more, the callback has run
     exactly once - with the reply iff the onAck goroutine won the handler mutex (called), otherwise
     with the timeout (timedOut). *)
@@ -60,9 +73,12 @@ Proof. exact one_reply_per_event. Qed.
 
 (** Non-vacuity: a schedule in which reply and timer race for the same id, a duplicate arrives,
     and the state reached is terminal with exactly the reply delivered. *)
+(** (the timer wakes up while the reply callback is still executing: LTimer between the start
+    and the end of the callback of onAck goroutine 0) *)
 Example C03_example_race :
   let s := run [LEmit true 1; LEmitStep 0; LEmitStep 0; LPeerAck 0 [7%N]; LPeerAck 0 [8%N]; LDeliver 0;
-                LPacketIn 0 [9%N]; LReply 0 true; LReply 0 true; LTimer 0; LReply 1 true; LReply 0 true]
+                LPacketIn 0 [9%N]; LReply 0 true; LReply 0 true; LReply 0 true; LTimer 0; LReply 1 true;
+                LReply 0 true]
                (init_state (mkConfig true false) true) in
   terminalb s = true /\ outcomes s 0 = [OReply [7%N]] /\ st_psent s = [(0, [7%N])].
 Proof. vm_compute. auto. Qed.
